@@ -14,6 +14,7 @@ import RaptorModel.Driver.C12
 import RaptorModel.Driver.C15
 import RaptorModel.Driver.C16
 import RaptorModel.Driver.C19
+import RaptorModel.Driver.C20
 /-!
 `rmdrv <casefile>` — reads one case per line (`<prop> <op> <int> <int> ...`), runs the executable
 model and the decidable specification predicates, prints one verdict line per case:
@@ -40,6 +41,7 @@ def dispatch (prop op : String) (a : Array Int) : Verdict :=
   | "C15" => C15.run op a
   | "C16" => C16.run op a
   | "C19" => C19.run op a
+  | "C20" => C20.run op a
   | "C01" => Amg.run prop op a
   | "C10" => Amg.run prop op a
   | _ => badCase s!"unknown property {prop}"
